@@ -24,7 +24,11 @@ func init() {
 func runC03(c *core.Check) {
 	c.Rule = "every MC_Dec (spec, body) pair that is JSON-expressible under the spec (HclDec!JsonExpressible) x 5 fixed JSON encodings (duplicate property names in item order; blocks grouped as arrays of bodies; whole body as array of objects; labels merged into nested label objects plus // comment properties; one object per item), and (MC_JsonEnc) 12 specs x bodies of <= 2 items x EVERY encoding JsonEnc.tla admits (body object / array of objects; blocks as repeated properties / arrays / merged label objects; arrays at type or innermost label level; comment properties): hcldec.Decode of native and JSON forms give the same error-ness and RawEquals values, and Body.Content under the implied schema gives the same attributes, literal values and per-type label sequences, and for order-keeping encodings the same block sequence across types. Non-trivial = distinct (spec, body) with at least one item"
 	c.Assumes = []string{"a body is only compared when every block of a requested type carries the requested number of labels (JSON derives label structure from the schema)", "diagnostic texts differ by design; only error-ness is compared"}
-	for _, consts := range decConfigs(c) {
+	cfgs := decConfigs(c)
+	if c.Tier != "thorough" && len(cfgs) > 3 {
+		cfgs = cfgs[:3] // the depth-2 x two-item stage belongs to C08's quick tier; here it is thorough only
+	}
+	for _, consts := range cfgs {
 		streamTLC(c, core.TLCRun{Module: "MC_Dec", Parts: 4, Consts: consts, Timeout: minutes(25), KeepVars: []string{"phase", "jsonok", "spec", "body"}},
 			func(st core.State) { c03.Handle(c, st) })
 	}
